@@ -8,9 +8,11 @@ var Registry = map[string]func(tier string) int{
 	"C04": C04,
 	"C05": C05,
 	"C06": C06,
+	"C12": C12,
 	"C15": C15,
 	"C16": C16,
 	"C19": C19,
+	"C20": C20,
 }
 
 // Probe dispatches child-process probes (scenarios that may die fatally).
